@@ -14,9 +14,10 @@ LEVEL_TEXT = ("Theorems in coq/Props/C05.v over Model/Graph.v (whose states are 
               "the mentions of a rewritten line are exactly the old ones with the old identifier replaced, and a line that "
               "did not mention it keeps its mentions (Proofs/RenameP.v, for identifiers free of the list separators). Tie: histories "
               "run on gfapy and on the model with the full observation compared after every operation (so the implementation's "
-              "cascade, rename and tag edits are compared with the text edit step by step). Partial: 'equals a Gfa parsed afresh "
-              "from the resulting text' is decided by the oracle (re-parse of the written non-virtual lines and comparison of the "
-              "canonical observations), not proved.")
+              "cascade, rename and tag edits are compared with the text edit step by step). 'Equals a Gfa parsed afresh from the "
+              "text': in the reference semantics, reading the records of a state without placeholders into an empty Gfa gives the "
+              "same records and the same back-references (Proofs/ReparseP.v); on the implementation it is decided by the oracle "
+              "(re-parse of the written non-virtual lines and comparison of the canonical observations).")
 RULE = ("histories as in C02, biased to removals: segments with fan-out 2-4 per end, links under paths, edges and groups under "
         "groups (nesting <= 3), plus tag set/delete edits. Non-trivial: an rm whose cascade removes >= 2 further lines, or a "
         "rename of a segment mentioned by >= 2 lines.")
